@@ -137,6 +137,29 @@ C10_FailureStops ==
         /\ S.st = "EXCEPTED" /\ S.cur.val \in {S.awt[i].val : i \in Failed(S) \cap S.watched}
         /\ Prog(S)[LastStep(S)].cmd = "await"
 
+(* ---- C16: remote control, announcements ----------------------------------------------------------- *)
+Announced(s) == SelectSeq(s.log, LAMBDA e : e[1] = "bcast" /\ e[2] = "state_changed")
+Entered(s)   == SelectSeq(s.log, LAMBDA e : e[1] = "enter")
+BcastFaults(s) == SelectSeq(s.log, LAMBDA e : e[1] = "fault" /\ e[2] = "bcast")
+\* each completed transition is announced exactly once and in order (state_changed.<from>.<to>, sent by the pid);
+\* checked on behaviours without an injected broadcast failure
+C16_AnnouncedOnceInOrder ==
+  (S.comm /\ BcastFaults(S) = <<>> /\ "D11" \notin S.dev) =>
+     LET a == Announced(S) e == Entered(S) IN
+       /\ Len(a) = Len(e) + 1 /\ a[1][3] = None /\ a[1][4] = "CREATED"
+       /\ \A i \in 1..Len(e) : a[i + 1][3] = e[i][2] /\ a[i + 1][4] = e[i][3]
+\* a terminated process no longer receives messages
+C16_Unsubscribed == S.comm => (S.closed => ~S.subs)
+\* the reply of a control message is the outcome of the call its handler made
+RpcCalls(s) == SelectSeq(s.log, LAMBDA e : e[1] = "call" /\ e[6] = "rpc")
+C16_Reply ==
+  S.comm => \A i \in 1..Len(S.rpcs) :
+     LET m == S.rpcs[i] IN
+       (m.st \notin {"sched", "await", "woken"}) =>
+          \/ m.st = "failed:RuntimeError"
+          \/ (m.act = 0 /\ \E j \in 1..Len(RpcCalls(S)) : RpcCalls(S)[j][2] = m.intent /\ m.st = "done:" \o RpcCalls(S)[j][4])
+          \/ (m.act # 0 /\ m.st = (LET st == S.acts[m.act].status IN IF st = "done" THEN "done:True" ELSE st))
+
 (* ---- C13: the returned command alone decides the next step and its arguments ---------------- *)
 C13_Continuation == CleanFor("C13") => "wrongContinuation" \notin S.bad
 
